@@ -162,3 +162,28 @@ Definition seq_events (d : nat) : list event :=
 
 Fixpoint nest_seq (n : nat) (leaf : yaml) : yaml :=
   match n with O => leaf | S k => YSeq [nest_seq k leaf] end.
+
+(* ---------- (5) flow-limit bypass family: "[ ? ] , " * (d-1) ++ "[ ? ] " ++ "]" * d ---------- *)
+(* what the scanner's flow_level does along a token stream: +1 at a flow collection start it emits from
+   fetch_flow_collection_start, -1 at a flow collection end (current level, maximum) *)
+Definition tok_flow_step (cm : nat * nat) (t : token) : nat * nat :=
+  let '(c, m) := cm in
+  match snd t with
+  | TFlowSequenceStart | TFlowMappingStart => (S c, Nat.max m (S c))
+  | TFlowSequenceEnd | TFlowMappingEnd => (Nat.pred c, m)
+  | _ => (c, m)
+  end.
+Definition tok_flow_max (toks : list token) : nat := snd (fold_left tok_flow_step toks (0, 0)).
+
+Definition qflow_group : list token := [tk TFlowSequenceStart; tk TKey; tk TFlowSequenceEnd].
+Fixpoint qflow_groups (n : nat) : list token :=
+  match n with
+  | O => []
+  | S k => qflow_group ++ tk TFlowEntry :: qflow_groups k
+  end.
+(* StreamStart ([ ? ] ,)^(d-1) [ ? ] ]^d StreamEnd *)
+Definition qflow_tokens (d : nat) : list token :=
+  tk TStreamStart :: qflow_groups (Nat.pred d) ++ qflow_group ++ repeat (tk TFlowSequenceEnd) d ++ [tk TStreamEnd].
+Definition qflow_text (d : nat) : list N :=
+  flat_map (fun _ => [91; 32; 63; 32; 93; 32; 44; 32]%N) (repeat tt (Nat.pred d))
+    ++ [91; 32; 63; 32; 93; 32]%N ++ repeat 93%N d.
